@@ -795,6 +795,28 @@ OPS['neg_r'] = ('neg_r', 'val', 1, '', '({S}_neg_r a)')
 OPS['neg_v'] = ('neg_v', 'val', 1, '', '({S}_neg_v a)')
 
 
+# nalgebra ComplexField / RealField methods (family `field` of the harness; model: gen/Gen_Field.v)
+for _m in ('real imaginary modulus modulus_squared argument norm1 abs recip conjugate sin cos tan asin acos atan sinh cosh tanh asinh acosh atanh '
+           'log2 log10 ln ln_1p sqrt exp exp2 exp_m1 cbrt from_real').split():
+    OPS['cf_' + _m] = ('field:cf_' + _m, 'val', 1, '', '({S}_ComplexField_%s a)' % _m)
+for _m in ('scale', 'unscale', 'hypot', 'log', 'powf', 'powc'):
+    OPS['cf_' + _m] = ('field:cf_' + _m, 'val', 2, '', '({S}_ComplexField_%s a b)' % _m)
+OPS['cf_mul_add'] = ('field:cf_mul_add', 'val', 3, '', '({S}_ComplexField_mul_add a b c)')
+OPS['cf_sin_cos'] = ('field:cf_sin_cos', 'pair', 1, '', '({S}_ComplexField_sin_cos a)')
+OPS['cf_powi'] = ('field:cf_powi', 'val', 1, 'n', '({S}_ComplexField_powi a n)')
+for _m in ('pi two_pi frac_pi_2 frac_pi_3 frac_pi_4 frac_pi_6 frac_pi_8 frac_1_pi frac_2_pi frac_2_sqrt_pi e log2_e log10_e ln_2 ln_10').split():
+    OPS['rf_' + _m] = ('field:rf_' + _m, 'val', 0, '', '({S}_RealField_%s : {TY})' % _m)
+for _m in ('copysign', 'atan2', 'max', 'min'):
+    OPS['rf_' + _m] = ('field:rf_' + _m, 'val', 2, '', '({S}_RealField_%s a b)' % _m)
+OPS['rf_clamp'] = ('field:rf_clamp', 'val', 3, '', '({S}_RealField_clamp a b c)')
+for _m in ('simd_splat_extract',):
+    OPS[_m] = ('field:' + _m, 'val', 1, '', None)
+for _m in ('simd_replace_extract', 'simd_select_true', 'simd_select_false'):
+    OPS[_m] = ('field:' + _m, 'val', 2, '', None)
+OPS['rf_is_sign_positive'] = ('field:rf_is_sign_positive', 'bool', 1, '', '({S}_RealField_is_sign_positive a)')
+OPS['rf_is_sign_negative'] = ('field:rf_is_sign_negative', 'bool', 1, '', '({S}_RealField_is_sign_negative a)')
+
+
 class Case:
     __slots__ = ('id', 'ty', 'op', 'aux', 'args', 'tag')
 
@@ -810,7 +832,10 @@ class Case:
             else:
                 lf = self.ty.leaf()
                 aux.append('%016x' % a if lf.width == 64 else '%08x' % a)
-        head = '%s dual %s %s %s' % (self.id, harness_type_name(self.ty), hop, ' '.join(aux))
+        fam = 'dual'
+        if ':' in hop:
+            fam, hop = hop.split(':')
+        head = '%s %s %s %s %s' % (self.id, fam, harness_type_name(self.ty), hop, ' '.join(aux))
         return head.strip() + ''.join(' | ' + ' '.join(val_to_tokens(v, self.ty)) for v in self.args)
 
     def describe(self):
